@@ -112,8 +112,7 @@ impl DAffine2 {
     /// Panics if `slice` is less than 6 elements long.
     #[inline]
     pub fn write_cols_to_slice(self, slice: &mut [f64]) {
-        self.matrix2.write_cols_to_slice(&mut slice[0..4]);
-        self.translation.write_to_slice(&mut slice[4..6]);
+        slice[..6].copy_from_slice(&self.to_cols_array());
     }
 
     /// Creates an affine transform that changes scale.
